@@ -24,6 +24,17 @@ PLAN = {
 }
 
 
+# further trace specifications of the same property (run after the main plan)
+EXTRA = {
+    'C01': [('TraceRejection', 'TraceRejection.cfg', 'beta.ndjson', {}, {'lawc': ['P', 'nonint']}),
+            ('TraceCompose', 'TraceCompose.cfg', 'comp_0.ndjson', {}, {'wire': ['got', 'gcls'], 'msh': ['T', 'words_same']})],
+    'C02': [('TraceRejection', 'TraceRejection.cfg', 'rej.ndjson', {}, {'law': ['P', 'other', 'nonint']}),
+            ('TraceRejection', 'TraceRejection.cfg', 'knuth.ndjson', {}, {'knuth32': ['oneword', 'P'], 'knuth64': ['p0', 'witness']})],
+    'C06': [('TraceZigAcc', 'TraceZigAcc.cfg', 'zigacc.ndjson', {}, {'wedge': ['T', 'inwedge', 'xq'], 'ntail': ['T'], 'etail': ['cnt']})],
+    'C12': [('TraceGeom', 'TraceGeom.cfg', 'geom_0.ndjson', {}, {'edge': ['last', 'zero_rejected'], 'img': ['got']})],
+}
+
+
 def corrupt(ev, field):
     v = ev.get(field)
     if isinstance(v, bool):
@@ -36,7 +47,13 @@ def corrupt(ev, field):
         if isinstance(v[0], list):
             w = copy.deepcopy(v); w[0][0] = w[0][0] + 1 if isinstance(w[0][0], int) else w[0][0]; ev[field] = w
         elif isinstance(v[0], int):
-            w = list(v); w[0] += 1; ev[field] = w
+            # little-endian base-2^14 limbs (T, cnt, last, p0, xq): corrupt the most significant limb; otherwise the first entry
+            w = list(v)
+            if field in ('T', 'cnt', 'last', 'p0', 'xq'):
+                w[-1] += 1
+            else:
+                w[0] += 1
+            ev[field] = w
         elif isinstance(v[0], str):
             w = list(v); w[0] = 'nan' if w[0] != 'nan' else 'fin'; ev[field] = w
         else:
@@ -49,15 +66,24 @@ def corrupt(ev, field):
 def run(pid, mod):
     if pid not in PLAN:
         print('no selftest plan for', pid); return 2
-    module, cfg, fname, env, fields = PLAN[pid]
-    wd = workdir(pid, 'traces')
-    src = wd / fname
     # always re-record: a trace left behind by an earlier run may come from a different tree
     log('[selftest] recording a fresh trace with the quick check')
     rc0 = mod.run(pid, 'quick')
     if rc0 == 2:
         return 2
+    rc = 0
+    for plan in [PLAN[pid]] + EXTRA.get(pid, []):
+        rc = max(rc, run_plan(pid, plan))
+    return rc
+
+
+def run_plan(pid, plan):
+    module, cfg, fname, env, fields = plan
+    wd = workdir(pid, 'traces')
+    src = wd / fname
     lines = src.read_text().splitlines()[:60000]
+    if module == 'TraceGeom' and fields.get('edge'):
+        lines = [x for x in src.read_text().splitlines() if '"op":"edge"' in x or '"op":"img"' in x][:4000]
     rnd = random.Random(seed())
     # independent-event traces: corrupt many lines in one run; stateful traces (TraceTree, TraceObject): one per run
     stateful = module in ('TraceTree',)
@@ -74,7 +100,7 @@ def run(pid, mod):
     picked = cand[:6] if stateful else cand[:60]
     detected = 0; tried = 0; details = []
     env_all = dict(env)
-    if module == 'TraceZig':
+    if module in ('TraceZig', 'TraceZigAcc'):
         env_all['TABLE'] = wd / 'zigtables.ndjson'
     if stateful:
         for (idx, f) in picked:
@@ -107,5 +133,5 @@ def run(pid, mod):
     # a memo-based specification (TraceObject) can only object when the corrupted key is seen twice
     need = 0.25 if module == 'TraceObject' else 0.6
     ok = tried > 0 and detected >= max(1, int(need * tried))
-    print('SELFTEST %s: %d of %d corrupted fields were objected to -> %s' % (pid, detected, tried, 'ok' if ok else 'WEAK'))
+    print('SELFTEST %s [%s on %s]: %d of %d corrupted fields were objected to -> %s' % (pid, module, fname, detected, tried, 'ok' if ok else 'WEAK'))
     return 0 if ok else 2
